@@ -4,6 +4,9 @@ from harness.c05_lib import (mk_module, res_of_relpath, relpath_of_res, canon, t
 TOPS = ["a", "c", "d"]
 SUBS = ["p", "q", "b"]
 MODS = ["b", "s", "t"]
+# names that extend another module name without a dot boundary ("a.bb".startswith("a.b")): the AddingVisitor's
+# "already imported" test must not confuse them
+LONGER = {"b": "bb", "s": "st", "t": "tt"}
 ALIASES = ["x", "y", "z"]
 
 
@@ -17,6 +20,8 @@ def gen_tree(rng, want_depth=None):
         files["/".join(path + ("__init__.py",))] = mk_module(globals_=(["g"] if rng.random() < 0.35 else []))
         for m in rng.sample(MODS, rng.choice([0, 1, 1, 2, 2, 3])):
             files["/".join(path + (m + ".py",))] = mk_module(globals_=rng.choice([["f"], ["f", "g"], ["f"]]))
+        if rng.random() < 0.45:
+            files["/".join(path + (LONGER[rng.choice(MODS)] + ".py",))] = mk_module(globals_=["f"])
 
     depth = want_depth or rng.choice([1, 2, 2, 3])
     for t in rng.sample(TOPS, rng.choice([2, 2, 3])):
@@ -234,6 +239,7 @@ def style_clients(rng, tree, pkgs, mover):
         out.append((rng.choice(folders), mk_module([("F", 0, tuple(p), [(b, None)])], refs_for((b,)))))
         out.append((rng.choice(folders), mk_module([("F", 0, tuple(p), [(b, al)])], refs_for((al,)))))
         out.append((tuple(p), mk_module([("F", 1, (), [(b, None)])], refs_for((b,)))))
+        out.append((tuple(p), mk_module([("F", 1, (), [(b, al)])], refs_for((al,)))))
     if gl:
         g = rng.choice(gl)
         k = rng.choice([None, rng.choice(ALIASES)])
@@ -242,3 +248,26 @@ def style_clients(rng, tree, pkgs, mover):
         if p:
             out.append((tuple(p), mk_module([("F", 1, (b,), [(g, k)])], [(k or g,)])))
     return out
+
+
+def prefix_sibling_clients(rng, tree, pkgs, mover):
+    """clients that reach the mover through a statement that makes MoveModule ADD `import dest.b`, and that already
+    hold an un-aliased `import E.bX` where bX merely starts with b: when the mover goes to E the new import must
+    still be added.  Returns (clients, destinations to include)."""
+    if mover[0] != "P" or not mover[1]:
+        return [], []
+    p, b = mover[1], mover[2]
+    longer = LONGER.get(b)
+    rs = Resolver(tree["files"], tree_dirs(tree))
+    gl = list(rs.globals_of(mover))
+    out, dests = [], []
+    for E in pkgs:
+        rel = "/".join(tuple(E) + (longer + ".py",)) if longer else None
+        if rel and rel in tree["files"] and tuple(E) != tuple(p):
+            base_refs = [(b,)] + [(b, g) for g in gl[:1]] + [tuple(E) + (longer, "f")]
+            out.append((tuple(p), mk_module([("N", [(tuple(E) + (longer,), None)]), ("F", 1, (), [(b, None)])],
+                                            base_refs)))
+            out.append((tuple(p), mk_module([("F", 1, (), [(b, None)]), ("N", [(tuple(E) + (longer,), None)])],
+                                            base_refs)))
+            dests.append(tuple(E))
+    return out, dests
